@@ -46,8 +46,14 @@ theorem SegsRel.length {src} : ∀ {as bs : List Segment}, SegsRel src as bs →
   | [], _ :: _, h => h.elim
   | _ :: _, [], h => h.elim
 
+/-- the raw block kinds (`IsRaw()`: CodeBlock, FencedCodeBlock, HTMLBlock) — `GM.Proof.BlocksWF0.isRaw` -/
+def rawK : Kind → Bool
+  | .codeBlock | .fencedCodeBlock | .htmlBlock => true
+  | _ => false
+
 /-- node `a` of store A and the node `b` of store B that stands for it; `root`: `a` is A's Document, `b` is
-    B's Blockquote -/
+    B's Blockquote. The last three fields are unary facts about `a`: a RAW block has no empty line segment (for the
+    other kinds GM.Props.Wf0.inline_segments_nonempty says so about every run), an info / closure segment is not empty. -/
 structure NodeRel (src : Bytes) (root : Bool) (a b : Node) : Prop where
   kind : if root then b.kind = .blockquote ∧ a.kind = .document else b.kind = a.kind
   parent : if root then b.parent = some 0 ∧ a.parent = none else b.parent = a.parent.map (· + 1)
@@ -62,15 +68,20 @@ structure NodeRel (src : Bytes) (root : Bool) (a b : Node) : Prop where
   htmlType : b.htmlType = a.htmlType
   info : InfoRel src a.info b.info
   closure : ClosRel src a.closure b.closure
+  rawNE : rawK a.kind = true → ∀ l ∈ a.lines, l.start < l.stop
+  infoNE : ∀ i, a.info = some i → i.start < i.stop
+  closNE : 0 ≤ a.closure.start → a.closure.start < a.closure.stop
 
 theorem nodeRel_default (src : Bytes) : NodeRel src false (default : Node) (default : Node) := by
-  refine ⟨rfl, rfl, rfl, trivial, rfl, rfl, rfl, rfl, rfl, rfl, rfl, trivial, .inl ⟨by decide, rfl⟩⟩
+  refine ⟨rfl, rfl, rfl, trivial, rfl, rfl, rfl, rfl, rfl, rfl, rfl, trivial, .inl ⟨by decide, rfl⟩,
+    (fun _ l hl => by cases hl), (fun i hi => by cases hi), (fun h => absurd h (by decide))⟩
 
 /-- a freshly built node without lines -/
 theorem nodeRel_new (src : Bytes) (n : Node) (h1 : n.parent = none) (h2 : n.children = []) (h3 : n.lines = [])
     (h4 : n.info = none) (h5 : n.closure.start < 0) : NodeRel src false n n := by
   refine ⟨rfl, by simp [h1], by simp [h2], by rw [h3]; trivial, rfl, rfl, rfl, rfl, rfl, rfl, rfl, by rw [h4]; trivial,
-    .inl ⟨h5, rfl⟩⟩
+    .inl ⟨h5, rfl⟩, (fun _ l hl => by rw [h3] at hl; cases hl), (fun i hi => by rw [h4] at hi; cases hi),
+    (fun h => by omega)⟩
 
 structure StoreRel (src : Bytes) (nA nB : List Node) : Prop where
   len : nB.length = nA.length + 1
@@ -234,6 +245,14 @@ theorem modNode_s2 {src k ls p} {sA sB : St} (h : SR src k ls p sA sB) (id : Nat
   unfold modNode
   exact S2.ok ⟨h.r, h.n.set id (hf _ _ (h.n.node id)), h.c⟩
 
+/-- `modNode` where the functions need to be related only on the two nodes they are applied to -/
+theorem modNode_s2' {src k ls p} {sA sB : St} (h : SR src k ls p sA sB) (id : Nat) (fA fB : Node → Node)
+    (hf : NodeRel src (id == 0) (sA.nodes.getD id default) (sB.nodes.getD (id + 1) default) →
+      NodeRel src (id == 0) (fA (sA.nodes.getD id default)) (fB (sB.nodes.getD (id + 1) default))) :
+    S2 (fun _ _ sA' sB' => SR src k ls p sA' sB') (modNode id fA sA) (modNode (id + 1) fB sB) := by
+  unfold modNode
+  exact S2.ok ⟨h.r, h.n.set id (hf (h.n.node id)), h.c⟩
+
 theorem getD_append_lt {α} (l : List α) (x d : α) (i : Nat) (h : i ≠ l.length) : (l ++ [x]).getD i d = l.getD i d := by
   simp only [List.getD_eq_getElem?_getD]
   rcases Nat.lt_or_ge i l.length with h1 | h1
@@ -259,6 +278,18 @@ theorem newNode_s2 {src k ls p} {sA sB : St} (h : SR src k ls p sA sB) (nA nB : 
       have : (sA.nodes.length == 0) = false := beq_eq_false_iff_ne.mpr (by omega)
       rw [this]; exact hn
     · rw [getD_append_lt _ _ _ _ hi, getD_append_lt _ _ _ _ (by rw [h.n.len]; omega)]; exact h.n.node i
+
+/-- `newNode_s2`, with the fact that A's new node is the given one -/
+theorem newNode_s2k {src k ls p} {sA sB : St} (h : SR src k ls p sA sB) (nA nB : Node) (hn : NodeRel src false nA nB) :
+    S2 (fun a b sA' sB' => a = sA.nodes.length ∧ b = a + 1 ∧ a ≠ 0 ∧ SR src k ls p sA' sB' ∧
+        sA'.nodes.getD a default = nA)
+      (newNode nA sA) (newNode nB sB) := by
+  intro a sA' e
+  obtain ⟨b, sB', e2, h1, h2, h3, h4⟩ := newNode_s2 h nA nB hn a sA' e
+  refine ⟨b, sB', e2, h1, h2, h3, h4, ?_⟩
+  unfold newNode at e
+  cases e
+  exact getD_append_eq _ _ _
 
 theorem getPc_s2 {src k ls p} {sA sB : St} (h : SR src k ls p sA sB) :
     S2 (fun a b sA' sB' => a = sA.pc ∧ b = sB.pc ∧ CtxRel a b ∧ sA' = sA ∧ sB' = sB) (getPc sA) (getPc sB) := by
